@@ -195,6 +195,11 @@ impl Generation {
         self.0 == 0
     }
 
+    #[cfg(gluon_verif)]
+    pub fn verif_number(self) -> i32 {
+        self.0
+    }
+
     /// Returns a generation which compared to any normal generation is always younger.
     pub fn disjoint() -> Generation {
         Generation(-1)
@@ -1042,6 +1047,83 @@ where
     }
 }
 
+/// Verification hooks (`--cfg gluon_verif`), add-only.
+///
+/// * gc stress: when `STRESS_INTERVAL` is `k > 0` every `k`-th call of `check_collect` collects
+/// * visitor: while a visitor is installed on the current OS thread `Gc::mark` records the
+///   pointers it is asked to mark (with the nesting of `GcPtr::trace`) instead of marking them,
+///   and does not apply the generation shortcut, so a trace from a set of roots yields the whole
+///   reachable object graph without touching any mark bit
+#[cfg(gluon_verif)]
+pub mod verif {
+    use std::cell::RefCell;
+    use std::collections::HashSet;
+    use std::sync::atomic::{AtomicUsize, Ordering};
+
+    pub static STRESS_INTERVAL: AtomicUsize = AtomicUsize::new(0);
+    static STRESS_COUNTER: AtomicUsize = AtomicUsize::new(0);
+    pub static COLLECTIONS: AtomicUsize = AtomicUsize::new(0);
+
+    pub fn stress_tick() -> bool {
+        let k = STRESS_INTERVAL.load(Ordering::Relaxed);
+        k != 0 && STRESS_COUNTER.fetch_add(1, Ordering::Relaxed) % k == k - 1
+    }
+
+    #[derive(Clone, Debug, PartialEq)]
+    pub enum Event {
+        /// `mark` was called on this value address (generation of its heap, first visit?)
+        Ref(usize, i32, bool),
+        /// `GcPtr::trace` starts/finishes tracing the contents of this value
+        Enter(usize),
+        Exit(usize),
+    }
+
+    #[derive(Default)]
+    pub struct Visitor {
+        pub seen: HashSet<usize>,
+        pub events: Vec<Event>,
+    }
+
+    thread_local! {
+        static VISITOR: RefCell<Option<Visitor>> = RefCell::new(None);
+    }
+
+    pub fn begin() {
+        VISITOR.with(|v| *v.borrow_mut() = Some(Visitor::default()));
+    }
+
+    pub fn end() -> Visitor {
+        VISITOR.with(|v| v.borrow_mut().take().unwrap_or_default())
+    }
+
+    /// `Some(already seen)` when a visitor is installed
+    pub fn visit(addr: usize, generation: i32) -> Option<bool> {
+        VISITOR.with(|v| {
+            v.borrow_mut().as_mut().map(|v| {
+                let new = v.seen.insert(addr);
+                v.events.push(Event::Ref(addr, generation, new));
+                !new
+            })
+        })
+    }
+
+    pub fn enter(addr: usize) {
+        VISITOR.with(|v| {
+            if let Some(v) = v.borrow_mut().as_mut() {
+                v.events.push(Event::Enter(addr));
+            }
+        })
+    }
+
+    pub fn exit(addr: usize) {
+        VISITOR.with(|v| {
+            if let Some(v) = v.borrow_mut().as_mut() {
+                v.events.push(Event::Exit(addr));
+            }
+        })
+    }
+}
+
 /// When traversing a `GcPtr` we need to mark it
 unsafe impl<T: ?Sized> Trace for GcPtr<T>
 where
@@ -1055,8 +1137,12 @@ where
     }
     fn trace(&self, gc: &mut Gc) {
         if !gc.mark(self) {
+            #[cfg(gluon_verif)]
+            verif::enter(self.0.as_ptr() as *const () as usize);
             // Continue traversing if this ptr was not already marked
             (**self).trace(gc);
+            #[cfg(gluon_verif)]
+            verif::exit(self.0.as_ptr() as *const () as usize);
         }
     }
 }
@@ -1268,6 +1354,11 @@ impl Gc {
         R: Trace + CollectScope,
     {
         unsafe {
+            #[cfg(gluon_verif)]
+            if verif::stress_tick() {
+                self.collect(roots);
+                return true;
+            }
             if self.allocated_memory >= self.collect_limit {
                 self.collect(roots);
                 true
@@ -1285,6 +1376,8 @@ impl Gc {
     {
         unsafe {
             info!("Start collect {:?}", self.generation);
+            #[cfg(gluon_verif)]
+            verif::COLLECTIONS.fetch_add(1, std::sync::atomic::Ordering::Relaxed);
             roots.scope(self, |self_| {
                 roots.trace(self_);
                 self_.sweep();
@@ -1297,6 +1390,10 @@ impl Gc {
     /// Returns true if the pointer was already marked
     pub fn mark<T: ?Sized>(&mut self, value: &GcPtr<T>) -> bool {
         let header = value.header();
+        #[cfg(gluon_verif)]
+        if let Some(seen) = verif::visit(value.0.as_ptr() as *const () as usize, header.generation().0) {
+            return seen;
+        }
         // We only need to mark and trace values from this garbage collectors generation
         if header.generation().is_parent_of(self.generation()) || header.marked.get() {
             true
@@ -1304,6 +1401,22 @@ impl Gc {
             header.marked.set(true);
             false
         }
+    }
+
+    /// Verification hook: `(value address, accounted size, marked)` of every object of this heap
+    #[cfg(gluon_verif)]
+    pub fn verif_objects(&self) -> Vec<(usize, usize, bool)> {
+        let mut out = Vec::new();
+        let mut current = self.values.as_ref();
+        while let Some(ptr) = current {
+            let header: &GcHeader = &**ptr;
+            let value = unsafe {
+                (header as *const GcHeader as *const u8).add(GcHeader::value_offset()) as usize
+            };
+            out.push((value, ptr.size(), header.marked.get()));
+            current = header.next.as_ref();
+        }
+        out
     }
 
     /// Clears out any unmarked pointers and resets marked pointers.
